@@ -1,4 +1,4 @@
-import FiberModel.C06.Model
+import FiberModel.C06.Spec
 import FiberModel.Generated.C06Facts
 /-
 C06 — property theorems. The table `C06.Facts.rows` is regenerated from the fiber sources by
@@ -86,6 +86,103 @@ theorem values_valid_until_return (immutable : Bool) (r : Row) (hr : r ∈ Facts
   case unknown => exact absurd rfl hne
   case reqobj => exact absurd rfl hobj
   all_goals (refine ⟨_, rfl, ?_⟩; first | rfl | (cases immutable <;> rfl))
+
+/-! ### Derived values -/
+
+/-- Reading a sub-slice is slicing what the parent reads – in every state of the storage. -/
+theorem sub_read (v : Val) (off len : Nat) (st : Store) :
+    (v.sub off len).read st = ((v.read st).drop off).take len := by
+  cases v with
+  | owned bs => rfl
+  | view buf o l =>
+    simp only [Val.sub, Val.read]
+    rw [List.drop_take, List.drop_drop, List.take_take]
+
+/-- **Values derived from stable values are stable.** A sub-slice (substring, split piece, trimmed
+    value) of a value that reads the same after a history reads the same after that history. -/
+theorem derived_stable (v : Val) (off len : Nat) (st : Store) (h : List Overwrite)
+    (hv : v.read (st.after h) = v.read st) :
+    (v.sub off len).read (st.after h) = (v.sub off len).read st := by
+  rw [sub_read, sub_read, hv]
+
+/-- With `Immutable`, every value DERIVED by slicing from what an accessor of the table yields keeps
+    its content after every later history. -/
+theorem immutable_derived_values_stable (r : Row) (hr : r ∈ Facts.rows) (ret : Ret) (hret : ret ∈ r.rets)
+    (hreach : ret.reachableImmutable = true) (s : Src) (hs : s ∈ ret.srcs) (hobj : s ≠ .reqobj)
+    (st : Store) (site : Site) (h : List Overwrite) (off len : Nat) :
+    ∃ v, materialise true st site s = some v ∧
+      (v.sub off len).read (st.after h) = ((expected st site s).drop off).take len := by
+  obtain ⟨v, hm, hv⟩ := immutable_values_stable r hr ret hret hreach s hs hobj st site h
+  exact ⟨v, hm, by rw [sub_read, hv]⟩
+
+example : ((Val.owned (b "front.test, back.test")).sub 0 10).read (fun _ => []) = b "front.test" := by decide
+
+/-! ### The criterion is exact: a view does change -/
+
+/-- A non-empty view that lies inside its buffer is NOT stable: some later history makes it read
+    differently. So `Row.okImmutable` cannot be weakened – a return site that yields an `alias` atom
+    (or an `imm` atom without the option) hands out a value a later request can change. -/
+theorem view_not_stable (st : Store) (buf off len : Nat) (hlen : 0 < len) (hin : off < (st buf).length) :
+    ∃ h : List Overwrite, (Val.view buf off len).read (st.after h) ≠ (Val.view buf off len).read st := by
+  -- overwrite the buffer with bytes that all differ from the first byte of the current reading
+  let a := (st buf)[off]
+  refine ⟨[⟨buf, List.replicate (off + len) (a + 1)⟩], ?_⟩
+  have hafter : (Val.view buf off len).read (st.after [⟨buf, List.replicate (off + len) (a + 1)⟩])
+      = List.replicate len (a + 1) := by
+    simp [Val.read, Store.after, Store.write]
+  have hbefore : ((Val.view buf off len).read st).head? = some a := by
+    simp only [Val.read]
+    obtain ⟨n, rfl⟩ : ∃ n, len = n + 1 := ⟨len - 1, by omega⟩
+    rw [List.drop_eq_getElem_cons hin, List.take_succ_cons]
+    rfl
+  intro heq
+  rw [hafter] at heq
+  rw [← heq] at hbefore
+  obtain ⟨n, rfl⟩ : ∃ n, len = n + 1 := ⟨len - 1, by omega⟩
+  simp [List.replicate_succ] at hbefore
+
+/-- An `alias` atom under `Immutable`, and an `imm` atom without it, materialise as such a view. -/
+theorem alias_atom_not_stable (st : Store) (site : Site) (hlen : 0 < site.len)
+    (hin : site.off < (st site.buf).length) :
+    ∃ v h, materialise true st site .alias = some v ∧ v.read (st.after h) ≠ v.read st := by
+  obtain ⟨h, hh⟩ := view_not_stable st site.buf site.off site.len hlen hin
+  exact ⟨_, h, rfl, hh⟩
+
+example : ∃ h : List Overwrite, (Val.view 0 3 5).read (Store.after (fun _ => b "/u/alice") h)
+    ≠ (Val.view 0 3 5).read (fun _ => b "/u/alice") :=
+  view_not_stable (fun _ => b "/u/alice") 0 3 5 (by decide) (by decide)
+
+/-! ### Model ⊑ Spec: what the model yields passes the property oracle of the driver -/
+
+/-- What the harness records for ONE value `v` captured while the storage was `st`: its content at
+    capture, at the end of the handler (storage untouched), and – with the option – after history `h`. -/
+def observeVal (immutable : Bool) (st : Store) (h : List Overwrite) (v : Val) : Obs :=
+  { during := [v.read st], atEnd := [v.read st], after := if immutable then some [v.read (st.after h)] else none }
+
+/-- **The model meets the specification.** For every accessor of the regenerated table, every return
+    site reachable in the configuration, every atom, storage state and later history, the observation
+    of the value the model yields violates no clause of `specViolation` (correct, stable until return,
+    and – with `Immutable` – unchanged after the history). -/
+theorem model_meets_spec (immutable : Bool) (r : Row) (hr : r ∈ Facts.rows) (ret : Ret) (hret : ret ∈ r.rets)
+    (hreach : immutable = true → ret.reachableImmutable = true) (s : Src) (hs : s ∈ ret.srcs)
+    (hobj : s ≠ .reqobj) (st : Store) (site : Site) (h : List Overwrite) :
+    ∃ v, materialise immutable st site s = some v ∧
+      specViolation immutable (some [expected st site s]) (observeVal immutable st h v) = none := by
+  cases immutable with
+  | false =>
+    obtain ⟨v, hm, hv⟩ := values_valid_until_return false r hr ret hret s hs hobj st site
+    exact ⟨v, hm, by simp [specViolation, observeVal, hv]⟩
+  | true =>
+    obtain ⟨v, hm, hv⟩ := immutable_values_stable r hr ret hret (hreach rfl) s hs hobj st site h
+    obtain ⟨v', hm', hv'⟩ := values_valid_until_return true r hr ret hret s hs hobj st site
+    have : v' = v := by rw [hm] at hm'; exact (Option.some.inj hm').symm
+    subst this
+    exact ⟨v', hm, by simp [specViolation, observeVal, hv, hv']⟩
+
+/-- the oracle is not trivially satisfied: a value that changed after the history fails it -/
+example : specViolation true (some [b "alice"]) ⟨[b "alice"], [b "alice"], some [b "bobby"]⟩ = some "immutable-stable" := by decide
+example : specViolation false (some [b "alice"]) ⟨[b "alice"], [b "alicf"], none⟩ = some "stable-until-return" := by decide
+example : specViolation true (some [b "alice"]) ⟨[b "alicf"], [b "alicf"], some [b "alicf"]⟩ = some "correct" := by decide
 
 /-! ### Non-vacuity and sharpness -/
 
